@@ -318,7 +318,19 @@ impl GenericsAnalyzer {
                             let first_segment = type_path.path.segments.first().unwrap();
 
                             if &first_segment.ident == generic_param_ident {
-                                let where_paths = extract_trait_bounds(&predicate_type.bounds);
+                                let mut where_paths = extract_trait_bounds(&predicate_type.bounds);
+
+                                // `for<'x> D: Foo<'x>` says `D: for<'x> Foo<'x>`
+                                if let Some(bound_lifetimes) = &predicate_type.lifetimes {
+                                    for bound in where_paths.iter_mut() {
+                                        if let syn::TypeParamBound::Trait(trait_bound) = bound {
+                                            if trait_bound.lifetimes.is_none() {
+                                                trait_bound.lifetimes =
+                                                    Some(bound_lifetimes.clone());
+                                            }
+                                        }
+                                    }
+                                }
 
                                 deps_trait_bounds.extend(where_paths);
                             }
